@@ -677,6 +677,17 @@ def applyTest (name : String) (v : Val) (args : List Val) : Except Err Bool :=
       | .undef _ | .obj _ => .error .oom
       | _ => .ok false)
   | "escaped", [] => .ok (hasHtml v)
+  | "upper", [] =>
+    -- `str(value).isupper()`: at least one cased character and no lower-case one (ASCII only in the model)
+    (match v with
+     | .obj _ | .fn _ => .error .oom
+     | _ => let s := pyStr v
+            if asciiOnly s then .ok (s.toList.any Char.isAlpha && s.toList.all (fun c => !c.isLower)) else .error .oom)
+  | "lower", [] =>
+    (match v with
+     | .obj _ | .fn _ => .error .oom
+     | _ => let s := pyStr v
+            if asciiOnly s then .ok (s.toList.any Char.isAlpha && s.toList.all (fun c => !c.isUpper)) else .error .oom)
   | "eq", [w] | "==", [w] | "equalto", [w] => pyCmp .eq v w
   | "ne", [w] | "!=", [w] => pyCmp .ne v w
   | "lt", [w] | "<", [w] | "lessthan", [w] => pyCmp .lt v w
@@ -749,7 +760,7 @@ def callVal (ctx : Ctx) (f : Val) (args : List Val) : Except Err Val :=
 def lookupVar (ctx : Ctx) (n : String) : Val :=
   match ctx.vars.find? (·.1 == n) with
   | some p => p.2
-  | Option.none => .undef n
+  | Option.none => .undef ""      -- the hint (the name) only feeds error messages, which are not modelled
 
 /- **Reference evaluator**: the value (and hook events) of an expression.  `ae` is the autoescape setting
     in force at run time; in a non-volatile frame it equals `c.autoescape`. -/
